@@ -54,7 +54,7 @@ The fragment (static types mirror what `erg --mode typecheck` infers; probed on 
               | c = !n ; while! do! c < e, do!: ... ; c.inc!() ; c.update!(a -> a + k)
               | f(a: T, b: T := lit): T = block | p!(a: T) = block | g = (a: T) -> e | p!(args) | (u, v) = (e1, e2)
               | [u, v] = list
-  expressions additionally: (if c, (do: a), (do: b)), f(args, kw := e), len(e), abs(e), l[lit], l + l, [e, ...]
+  expressions additionally: if(c, (do: a), (do: b)), f(args, kw := e), len(e), abs(e), l[lit], l + l, [e, ...]
 
   Erg printer rules (so that parsing precedence, property C11, cannot interfere): every non-atomic operand is
   parenthesised, negative literals in operand position are parenthesised, print! is always written `print!(...)`,
@@ -116,10 +116,11 @@ def code_ty(c):
 
 class Ex:
     """expression node: tag, args (list; sub-expressions are Ex), static type ty, guard flag, wrap code w"""
-    __slots__ = ("tag", "args", "ty", "guard", "w")
+    __slots__ = ("tag", "args", "ty", "guard", "w", "enum")
 
-    def __init__(self, tag, args, ty=None, guard=False, w=None):
+    def __init__(self, tag, args, ty=None, guard=False, w=None, enum=False):
         self.tag, self.args, self.ty, self.guard = tag, list(args), ty, guard
+        self.enum = enum
         self.w = wrap_code(ty, guard, tag) if w is None else w
 
     def __repr__(self):
@@ -171,6 +172,7 @@ def float_text(f):
 # ------------------------------------------------------------------------------------------------ generator
 NAT_EDGES = [0, 1, 2, 3, 7, 10, 255, 256, 65535, 65536, 2**31 - 1, 2**31, 2**31 + 1, 2**32 - 1, 2**32, 2**32 + 1,
              2**53, 2**53 + 1, 2**63 - 1, 2**63, 2**63 + 1, 2**64 - 1, 3000000000, 4294967296123]
+NAT_SMALL_EDGES = [n for n in NAT_EDGES if n < 2**31]
 NEG_EDGES = [-1, -2, -3, -7, -10, -128, -129, -32768, -32769, -2**31, -2**31 + 1, -123456789]
 FLOAT_EDGES = [0.0, -0.0, 1.0, -1.0, 0.5, 1.5, -1.5, 0.1, 0.2, 0.3, 2.5, 3.5, 3.14159, 1e15, 1e16, 1e17, 1e22, 1e23,
                123456789.12345679, 0.0001, 0.00001, 0.000123, 9007199254740992.0, 9007199254740994.0, 1e-7,
@@ -179,8 +181,9 @@ STR_CHARS = list("abcXYZ019 _-.,:;!?()[]#%&*+/<=>@^|~$") + ['"', "'", "\\", "\n"
 
 
 class Info:
-    def __init__(self, kind, ty=None, guard=False, params=None, ret=None, isproc=False):
+    def __init__(self, kind, ty=None, guard=False, params=None, ret=None, isproc=False, enum=False):
         self.kind, self.ty, self.guard, self.params, self.ret, self.isproc = kind, ty, guard, params, ret, isproc
+        self.enum = enum    # erg type is a multi-valued enum {a, b} (from an if-expression): see Gen.noenum
 
 
 class Gen:
@@ -196,6 +199,12 @@ class Gen:
         self.budget = 0
         self.in_func = False      # inside a pure function body / lambda: no print!, no procedures, no counters
         self.no_singleton = set() # ids whose erg type is not a singleton (parameters, loop variables)
+        self.big = rng.random() < 0.5   # this program may contain Nat literals >= 2**31
+        # erg mistypes arithmetic whose operand has a multi-valued enum type ({256, 3} - 300 : Nat, -({256, 3}) : Nat,
+        # {256, 3} / 2 : Nat; a type-checker defect outside C01's anchors, recorded as a known finding): while
+        # noenum > 0 no numeric if-expression / variable bound to one is produced
+        self.noenum = 0
+        self.allow_enum_arith = False
 
     # ---- names
     def fresh(self, info):
@@ -211,6 +220,8 @@ class Gen:
         for i in self.scope:
             inf = self.info[i]
             if inf.kind != "var":
+                continue
+            if inf.enum and self.noenum > 0:
                 continue
             if inf.ty == ty or (not exact and ty == INT and inf.ty == NAT):
                 out.append(i)
@@ -235,9 +246,9 @@ class Gen:
             if k < 0.45:
                 n = r.randint(0, 12)
             elif k < 0.8:
-                n = r.choice(NAT_EDGES)
+                n = r.choice(NAT_EDGES if self.big else NAT_SMALL_EDGES)
             else:
-                n = r.randint(0, 2 ** r.choice([8, 16, 31, 32, 33, 53, 63, 64]) - 1)
+                n = r.randint(0, 2 ** r.choice([8, 16, 31, 32, 33, 53, 63, 64] if self.big else [8, 16, 24, 31]) - 1)
             return Ex(E_LIT, [L_NAT, n], NAT)
         if ty == FLOAT:
             k = r.random()
@@ -265,7 +276,7 @@ class Gen:
 
     def var(self, i):
         inf = self.info[i]
-        return Ex(E_VAR, [i], inf.ty, guard=inf.guard)
+        return Ex(E_VAR, [i], inf.ty, guard=inf.guard, enum=inf.enum)
 
     # ---- typing rules mirrored from erg
     @staticmethod
@@ -284,8 +295,18 @@ class Gen:
         if ty == INT and r.random() < 0.5:
             return Ex(E_LIT, [L_NEG, -r.randint(1, 9)], INT)
         if d > 0 and r.random() < 0.3:
-            return Ex(E_BIN, [0, self.expr(NAT, d - 1), self.small_nat(1, 5)], NAT)
+            return Ex(E_BIN, [0, self.operand(NAT, d - 1), self.small_nat(1, 5)], NAT)
         return self.small_nat(1, 9)
+
+    def operand(self, ty, d):
+        """operand of an arithmetic / unary operator: not enum-typed"""
+        if self.allow_enum_arith:
+            return self.expr(ty, d)
+        self.noenum += 1
+        try:
+            return self.expr(ty, d)
+        finally:
+            self.noenum -= 1
 
     def expr(self, ty, d):
         """expression whose static type is ty or (for Int) the subtype Nat"""
@@ -301,22 +322,21 @@ class Gen:
             if ty == NAT:
                 prods += [(4, lambda: self.arith(r.choice([0, 2]), NAT, NAT, d)),
                           (2, lambda: self.arith(r.choice([4, 5]), NAT, NAT, d)),
-                          (1, lambda: Ex(E_BIN, [6, self.expr(NAT, d - 1), self.small_nat(0, 3)], NAT)),
-                          (1, lambda: Ex(E_UN, [UN_POS, self.expr(NAT, d - 1)], NAT))]
+                          (1, lambda: Ex(E_BIN, [6, self.operand(NAT, d - 1), self.small_nat(0, 3)], NAT)),
+                          (1, lambda: Ex(E_UN, [UN_POS, self.operand(NAT, d - 1)], NAT))]
                 if self.level >= 4 and not self.expr_only:
                     prods.append((1, lambda: self.len_of(d)))
+                    prods.append((1, lambda: Ex(E_ABS, [self.operand(INT, d - 1)], NAT)))
             if ty == INT:
                 prods += [(4, lambda: self.arith(r.choice([0, 1, 1, 2]), r.choice([NAT, INT]), r.choice([NAT, INT]), d, want=INT)),
                           (2, lambda: self.arith(r.choice([4, 5]), r.choice([NAT, INT]), r.choice([NAT, INT]), d, want=INT)),
-                          (2, lambda: Ex(E_UN, [UN_NEG, self.expr(r.choice([NAT, INT]), d - 1)], INT)),
-                          (1, lambda: Ex(E_UN, [UN_INV, self.expr(r.choice([NAT, INT]), d - 1)], INT)),
-                          (1, lambda: Ex(E_UN, [UN_POS, self.expr(INT, d - 1)], INT, w=None))]
-                if self.level >= 4 and not self.expr_only:
-                    prods.append((1, lambda: Ex(E_ABS, [self.expr(INT, d - 1)], NAT)))
+                          (2, lambda: Ex(E_UN, [UN_NEG, self.operand(r.choice([NAT, INT]), d - 1)], INT)),
+                          (1, lambda: Ex(E_UN, [UN_INV, self.operand(r.choice([NAT, INT]), d - 1)], INT)),
+                          (1, lambda: self.pos_int(d))]
             if ty == FLOAT:
                 prods += [(4, lambda: self.arith(r.choice([0, 1, 2]), FLOAT, r.choice([NAT, INT, FLOAT]), d, want=FLOAT)),
                           (3, lambda: self.arith(3, r.choice([NAT, INT, FLOAT]), r.choice([NAT, INT, FLOAT]), d)),
-                          (1, lambda: Ex(E_UN, [r.choice([UN_NEG, UN_POS]), self.expr(FLOAT, d - 1)], FLOAT))]
+                          (1, lambda: Ex(E_UN, [r.choice([UN_NEG, UN_POS]), self.operand(FLOAT, d - 1)], FLOAT))]
             if ty == STR:
                 prods += [(3, lambda: Ex(E_BIN, [0, self.expr(STR, d - 1), self.expr(STR, d - 1)], STR)),
                           (1, lambda: Ex(E_BIN, [2, self.expr(STR, d - 1), self.small_nat(0, 3)], STR))]
@@ -326,7 +346,8 @@ class Gen:
                           (2, lambda: self.not_(d))]
             if is_list(ty) and self.level >= 4:
                 prods.append((2, lambda: self.concat(ty, d)))
-            if self.level >= 2 and not self.expr_only and not is_list(ty) and ty != NONE:
+            if self.level >= 2 and not self.expr_only and not is_list(ty) and ty != NONE and \
+                    not (self.noenum > 0 and ty in (NAT, INT, FLOAT)):
                 prods.append((1, lambda: self.if_expr(ty, d)))
             if self.level >= 3 and not self.expr_only:
                 fs = self.funs_ret(ty)
@@ -350,12 +371,16 @@ class Gen:
             ta, tb = tb, ta
         if want == FLOAT and FLOAT not in (ta, tb):
             ta = FLOAT
-        a = self.expr(ta, d - 1)
+        a = self.operand(ta, d - 1)
         if op in (3, 4, 5):
             b = self.nonzero(tb, d - 1)
         else:
-            b = self.expr(tb, d - 1)
+            b = self.operand(tb, d - 1)
         return Ex(E_BIN, [op, a, b], self.arith_ty(op, a.ty, b.ty))
+
+    def pos_int(self, d):
+        a = self.operand(INT, d - 1)
+        return Ex(E_UN, [UN_POS, a], a.ty)
 
     def arith_ty(self, op, ta, tb):
         if op == 3:
@@ -395,7 +420,16 @@ class Gen:
         return Ex(E_UN, [UN_NOT, a], BOOL, guard=a.guard)
 
     def if_expr(self, ty, d):
-        return Ex(E_IF, [self.expr(BOOL, d - 1), self.expr(ty, d - 1), self.expr(ty, d - 1)], ty)
+        c = self.expr(BOOL, d - 1)
+        for _ in range(20):
+            a, b = self.expr(ty, d - 1), self.expr(ty, d - 1)
+            if a.ty == b.ty:      # erg has no common Output for e.g. ({-678} or Nat)
+                break
+        else:
+            a, b = self.lit(ty), self.lit(ty)
+            if a.ty != b.ty:
+                b = a
+        return Ex(E_IF, [c, a, b], a.ty, enum=a.ty in (NAT, INT, FLOAT))
 
     def len_of(self, d):
         ls = [i for i in self.scope if self.info[i].kind == "var" and (is_list(self.info[i].ty) or self.info[i].ty == STR)]
@@ -455,7 +489,7 @@ class Gen:
             if e.ty == NAT and r.random() < 0.3:
                 ann, vty = TYCODE[INT], INT
             guard = False
-        i = self.fresh(Info("var", vty, guard))
+        i = self.fresh(Info("var", vty, guard, enum=e.enum and not ann))
         st = St(S_DEF, [i, ann, e])
         self.bind(i)
         return st
@@ -487,13 +521,30 @@ class Gen:
             out += self.stmt(nested=True)
         if need_print and not any(s.tag in (S_PRINT, S_PCALL) for s in out) and not self.in_func:
             out.append(self.s_print())
-        if not out:
-            out.append(self.s_print())
+        if not out or out[-1].tag in (S_DEF, S_MUTDEF, S_FUN, S_LAM, S_PAT):
+            # an Erg block cannot end with a definition (syntax error)
+            out.append(self.s_print() if not self.in_func else St(S_EXPR, [self.expr(self.scalar_ty(), 1)]))
         del self.scope[mark:]
         return out
 
+    def stmt_cond(self):
+        """condition of an if! statement: its Erg text must not begin with `(` (`if! (a) and b:` parses as a call
+        of if!), so the leftmost operand is atomic"""
+        r = self.rng
+        k = r.random()
+        if k < 0.3:
+            return Ex(E_UN, [UN_NOT, self.expr(BOOL, 2)], BOOL)
+        if k < 0.4:
+            vs = self.vars_of(BOOL)
+            return self.var(r.choice(vs)) if vs else self.lit(BOOL)
+        for _ in range(20):
+            c = self.cmp(2) if k < 0.8 else self.logic(2)
+            if erg_atomic(c.args[1]):
+                return c
+        return self.lit(BOOL)
+
     def s_if(self):
-        c = self.expr(BOOL, 2)
+        c = self.stmt_cond()
         then = self.block(self.rng.randint(1, 2))
         has_else = self.rng.random() < 0.6
         els = self.block(self.rng.randint(1, 2)) if has_else else []
@@ -604,7 +655,7 @@ class Gen:
             es = [self.expr(self.scalar_ty(), 1) for _ in range(n)]
             ids = []
             for e in es:
-                i = self.fresh(Info("var", e.ty, e.guard))
+                i = self.fresh(Info("var", e.ty, e.guard, enum=e.enum))
                 ids.append(i)
             for i in ids:
                 self.bind(i)
@@ -768,7 +819,9 @@ def erg_atomic(e):
     if e.tag == E_LIT:
         k, v = e.args
         return not (k == L_NEG or (k == L_FLOAT and (v >> 63) == 1))
-    return e.tag in (E_VAR, E_LIST, E_CALL, E_LEN, E_ABS, E_INDEX)
+    if e.tag == E_UN and e.args[0] == UN_NOT:
+        return True      # written as a call not(...)
+    return e.tag in (E_VAR, E_LIST, E_CALL, E_LEN, E_ABS, E_INDEX, E_IF)
 
 
 def erg_op(e, names):
@@ -800,7 +853,7 @@ def erg_expr(e, names):
     if t == E_INDEX:
         return "%s[%s]" % (erg_op(a[0], names), erg_expr(a[1], names))
     if t == E_IF:
-        return "if %s, (do: %s), (do: %s)" % (erg_op(a[0], names), erg_expr(a[1], names), erg_expr(a[2], names))
+        return "if(%s, (do: %s), (do: %s))" % (erg_expr(a[0], names), erg_expr(a[1], names), erg_expr(a[2], names))
     if t == E_CALL:
         args = [erg_expr(x, names) for x in a[1]] + ["%s := %s" % (names(p), erg_expr(x, names)) for p, x in a[2]]
         return "%s(%s)" % (names(a[0]), ", ".join(args))
@@ -851,7 +904,7 @@ def to_erg(prog):
         elif t == S_PRINT:
             lines.append(p + "print!(%s)" % ", ".join(erg_expr(e, names) for e in a[0]))
         elif t == S_ASSERT:
-            lines.append(p + "assert %s" % erg_expr(a[0], names))
+            lines.append(p + "assert(%s)" % erg_expr(a[0], names))
         elif t == S_DEF:
             ann = ": %s" % erg_ty(code_ty(a[1])) if a[1] else ""
             lines.append(p + "%s%s = %s" % (names(a[0]), ann, erg_expr(a[2], names)))
@@ -863,7 +916,7 @@ def to_erg(prog):
                 lines.append(p + "    do!:")
                 blk(a[3], ind + 2)
             else:
-                lines.append(p + "if! %s, do!:" % erg_op(a[0], names))
+                lines.append(p + "if! %s, do!:" % erg_expr(a[0], names))
                 blk(a[1], ind + 1)
         elif t == S_FOR:
             lines.append(p + "for! %s, %s =>" % (erg_expr(a[1], names), names(a[0])))
@@ -1250,7 +1303,7 @@ def default_lit(e):
 
 def clone(x):
     if isinstance(x, Ex):
-        return Ex(x.tag, [clone(y) for y in x.args], x.ty, x.guard, w=x.w)
+        return Ex(x.tag, [clone(y) for y in x.args], x.ty, x.guard, w=x.w, enum=x.enum)
     if isinstance(x, St):
         return St(x.tag, [clone(y) for y in x.args])
     if isinstance(x, list):
